@@ -264,3 +264,57 @@ def deserializer_accepts(crate, lexpr):
             res[lab] = "/".join(sorted(kinds))
         out[m] = res
     return out
+
+
+def other_deserializers(crate, lexpr):
+    """Accept maps of every *other* type of the crate that implements serde::Deserializer (a key deserializer, a
+    wrapper): {type: {method: {input label: outcome}}}.  Its fields that hold a `&Value` are given the input."""
+    out = {}
+    impls = {}
+    for f in crate.fns:
+        if f.kind == "assoc" and f.impl_trait == "serde::Deserializer" and not f.path.startswith(DE) \
+                and f.file.endswith("value/de.rs"):
+            impls.setdefault(f.self_ty, []).append(f)
+    inl = lambda a, b: (b.crate == crate.name and b.file.endswith("value/de.rs")) or \
+                       (b.crate == "lexpr" and (b.file.endswith("value/mod.rs") or b.file.endswith("number.rs") or b.file.endswith("cons.rs")))
+    inputs = value_inputs(lexpr)
+    for ty, fns in impls.items():
+        base = ty.lstrip("&").replace("'a mut ", "").replace("mut ", "").split("<")[0]
+        adt = crate.adts.get(base)
+        if not adt:
+            out[ty] = None
+            continue
+        res_t = {}
+        for f in fns:
+            m = f.path.rsplit("::", 1)[1]
+            res = {}
+            for lab, val in inputs:
+                fields = [_cell(val) if "Value" in fl["ty"] else UNK for fl in adt["variants"][0]["fields"]]
+                me = Adt(base, 0, fields)
+                arg = _cell(me) if ty.startswith("&") else me
+                S = sim.Sim([crate, lexpr], hooks={"call": de_hook}, inline=inl, max_depth=7, max_paths=3000)
+                try:
+                    paths = S.run(f, args={1: arg})
+                except sim.Limit:
+                    res[lab] = "inexact"
+                    continue
+                kinds = set()
+                for p in paths:
+                    if p.end in ("panic", "diverge"):
+                        kinds.add("panic")
+                        continue
+                    if p.end != "return":
+                        kinds.add("?" + str(p.end))
+                        continue
+                    vis = [e[1] for e in p.events if e[0] == "visit"]
+                    inv = [e for e in p.events if e[0] == "invalid_value"]
+                    if vis:
+                        kinds.add(vis[-1])
+                    elif inv:
+                        kinds.add("err")
+                    else:
+                        kinds.add("other")
+                res[lab] = "/".join(sorted(kinds))
+            res_t[m] = res
+        out[ty] = res_t
+    return out
